@@ -10,8 +10,10 @@ SRC_PRIMES = "harness/c18_hashprimes.cpp"
 SRC_ASTR = "harness/c18_arenastring.cpp"
 
 # (part, shards)
-PARTS = [("vector", 16), ("string", 16), ("mix", 16), ("arena", 16), ("bitset", 16), ("hash", 16), ("pool", 8),
-         ("tree", 7), ("list", 15), ("treeperm", 16), ("bitprims", 16), ("arenasizes", 16), ("arenastring", 16)]
+# heaviest first; at most PAR parts (x 16 shards) run side by side
+PAR = 4
+PARTS = [("arena", 16), ("string", 16), ("bitset", 16), ("vector", 16), ("mix", 16), ("hash", 16), ("pool", 8),
+         ("tree", 7), ("list", 15), ("treeperm", 16), ("hashgrow", 16), ("vecsort", 16), ("bitprims", 16), ("arenasizes", 16), ("arenastring", 16)]
 
 
 def _merge(res, r):
@@ -43,7 +45,7 @@ def run(res, ctx):
     if "depth" in ctx["opts"]:
         extra = ["--depth", ctx["opts"]["depth"]]
     only = ctx["opts"].get("part")
-    dl = dict(deadline=100 if quick else 1000, timeout=600 if quick else 2400)
+    dl = dict(deadline=110 if quick else 1100, timeout=600 if quick else 2400)
     jobs = []
     for part, shards in PARTS:
         if only and part != only:
@@ -55,9 +57,17 @@ def run(res, ctx):
                                                  label="wide", extra_cxx=["-fno-sanitize=bounds"], **dl))
     if not only or only == "hashprimes":
         jobs.append(lambda r: runner.run_harness(r, SRC_PRIMES, "asan", tier, exclude_objs=["support/arenahash.cpp"], **dl))
-    # build once (serialised by vbuild's lock anyway), then run all parts' shards side by side; the OS balances the cores
+    # build the binaries one after the other first: concurrent first-time builds of one target would race on its ninja file
+    from lib import vbuild
+    import os
+    vbuild.build("asan", os.path.join(vbuild.VERIF, SRC))
+    if not only or only == "arenastring":
+        vbuild.build("asan", os.path.join(vbuild.VERIF, SRC_ASTR), extra_cxx=["-fno-sanitize=bounds"])
+    if not only or only == "hashprimes":
+        vbuild.build("asan", os.path.join(vbuild.VERIF, SRC_PRIMES), exclude_objs=["support/arenahash.cpp"])
+    # every part has its own Result (run_harness is not re-entrant on one Result); merged afterwards
     results = [runner.Result() for _ in jobs]
-    with concurrent.futures.ThreadPoolExecutor(max_workers=len(jobs)) as ex:
+    with concurrent.futures.ThreadPoolExecutor(max_workers=PAR) as ex:
         list(ex.map(lambda jr: jr[0](jr[1]), zip(jobs, results)))
     for r in results:
         _merge(res, r)
